@@ -748,6 +748,20 @@ func (e *Eng) loopHead(fr *Frame, li *loopInfo, st *State, loopMods map[int]map[
 	// 2. havoc
 	mods := loopMods[h.Index]
 	rowRefine, fieldRefine := e.loopWriteTargets(fr, li)
+	// private locals that the loop body does not assign keep their values
+	var keepLocals []privLocal
+	var keepVals []Val
+	for _, pl := range e.privLocals {
+		if !storedInLoop(pl.alloc, li) {
+			keepLocals = append(keepLocals, pl)
+			keepVals = append(keepVals, e.loadPtr(fr, st, pl.p, pl.p.Elem))
+		}
+	}
+	defer func() {
+		for i, pl := range keepLocals {
+			e.storePtr(fr, st, pl.p, pl.p.Elem, keepVals[i])
+		}
+	}()
 	for _, n := range e.sortedHeapNames() {
 		if strings.HasPrefix(n, "G|holds_") || e.w.stableGlobal(n) {
 			continue
@@ -1264,6 +1278,11 @@ func (e *Eng) assumePkgInvs(st *State) {
 			if fn == nil {
 				continue
 			}
+			if c.Kind == "fact" {
+				if r, ok := e.w.FactResult[path+"::"+c.SpecFn]; !ok || r.status != "discharged" {
+					continue // a fact that did not evaluate to true is reported, never assumed
+				}
+			}
 			v, _, _ := e.evalPure(fn, nil, nil, nil, nil, st, st, 0)
 			e.assume(st, v.(T))
 			e.note("package invariant (proved for the package initialiser; the variables are never written elsewhere): " + c.Expr)
@@ -1316,6 +1335,14 @@ func (e *Eng) pkgInvObligations(st *State) {
 			if !e.collect {
 				o := e.addObl("fact", c.Label, propsOf(c, e), "", nil, "closed fact about the initialised package, evaluated on the real code: "+c.Expr, false)
 				o.EvalPkg, o.EvalFn = path, c.SpecFn
+				r, ok := e.w.FactResult[path+"::"+c.SpecFn]
+				if !ok {
+					r = factRes{"unknown", "fact was not evaluated", 0}
+				}
+				o.Status, o.Raw, o.TimeMs, o.Solver = r.status, r.raw, r.ms, "go-eval(real code, no inputs)"
+				if r.status == "failed" {
+					o.Model = map[string]string{}
+				}
 			}
 		} else {
 			e.oblige(st, "pkginv.init", c.Label, propsOf(c, e), v.(T), nil, "package initialiser establishes: "+c.Expr)
@@ -1569,4 +1596,29 @@ func (e *Eng) ifaceArgs() []Val {
 	iv := &IfaceV{Ty: e.typeTag(rt), Boxed: e.params[0], BoxedT: rt}
 	iv.V = refOf(e.params[0])
 	return append([]Val{iv}, e.params[1:]...)
+}
+
+
+// storedInLoop: does a block of the loop store into the local variable (directly or into one of its fields)?
+func storedInLoop(a *ssa.Alloc, li *loopInfo) bool {
+	var addrStored func(v ssa.Value, depth int) bool
+	addrStored = func(v ssa.Value, depth int) bool {
+		if depth > 4 || v.Referrers() == nil {
+			return true
+		}
+		for _, r := range *v.Referrers() {
+			switch x := r.(type) {
+			case *ssa.Store:
+				if x.Addr == v && (li.body[x.Block()] || x.Block() == li.header) {
+					return true
+				}
+			case *ssa.FieldAddr:
+				if addrStored(x, depth+1) {
+					return true
+				}
+			}
+		}
+		return false
+	}
+	return addrStored(a, 0)
 }
